@@ -1,7 +1,15 @@
 package zzverif
 
 import (
+	"bytes"
 	"context"
+	"net/http/httptest"
+
+	"github.com/julienschmidt/httprouter"
+
+	"github.com/ory/keto/internal/x"
+	rts "github.com/ory/keto/proto/ory/keto/relation_tuples/v1alpha2"
+
 	"encoding/json"
 	"errors"
 	"fmt"
@@ -55,7 +63,7 @@ type checkOut struct {
 	Leak  int      `json:"leak"`            // keto goroutines still alive after the group
 	LeakS string   `json:"leaks,omitempty"`
 	// fault / cancel modes: one record per (query, depth)
-	Q    int    `json:"q,omitempty"`
+	Q    int    `json:"q"`
 	D    int    `json:"d,omitempty"`
 	Base string `json:"base,omitempty"`
 	N    int    `json:"n,omitempty"`
@@ -68,10 +76,20 @@ type checkOut struct {
 	CN   []int  `json:"cn,omitempty"` // storage calls of each cancel run
 	FN   []int  `json:"fn,omitempty"` // storage calls of each transient-fault run
 	Hang int    `json:"hang,omitempty"`
+	// batch under faults: per failing call k, the codes of all entries
+	BBase string   `json:"bbase,omitempty"`
+	BN    int      `json:"bn,omitempty"`
+	BE    []string `json:"be,omitempty"` // engine.BatchCheck
+	BG    []string `json:"bg,omitempty"` // gRPC BatchCheck handler
+	BR    []string `json:"br,omitempty"` // REST batch handler
 }
 
+// memCode: I allowed, N not member, U unknown, E error, X error AND allowed.
 func memCode(r checkgroup.Result) byte {
 	if r.Err != nil {
+		if r.Membership == checkgroup.IsMember {
+			return 'X'
+		}
 		return 'E'
 	}
 	switch r.Membership {
@@ -89,26 +107,128 @@ type checkEnv struct {
 	w   *storeWrap
 }
 
+// handlerDeps gives the check handler the engine with the wrapped storage.
+type handlerDeps struct {
+	*driver.RegistryDefault
+	eng *check.Engine
+}
+
+func (h handlerDeps) PermissionEngine() *check.Engine { return h.eng }
+
+// batch runs all queries as one batch through the engine, the gRPC handler and
+// the REST handler; an entry is I/N (no error) or E (error, not allowed) or X
+// (error and allowed).
+func (e *checkEnv) batch(t testing.TB, qs []*ketoapi.RelationTuple, depth int, pre func(rs *runState)) (eng, grpcC, rest string, calls int) {
+	h := check.NewHandler(handlerDeps{e.reg, e.eng})
+	code := func(allowed bool, errMsg string) byte {
+		switch {
+		case errMsg != "" && allowed:
+			return 'X'
+		case errMsg != "":
+			return 'E'
+		case allowed:
+			return 'I'
+		}
+		return 'N'
+	}
+	var last *runState
+	run := func(f func(ctx context.Context) string) string {
+		rs := &runState{}
+		last = rs
+		ctx, cancel := context.WithCancel(withRunState(context.Background(), rs))
+		defer cancel()
+		if pre != nil {
+			pre(rs)
+		}
+		return f(ctx)
+	}
+	eng = run(func(ctx context.Context) string {
+		rs, err := e.eng.BatchCheck(ctx, qs, depth)
+		if err != nil {
+			return "!"
+		}
+		b := make([]byte, len(rs))
+		for i, r := range rs {
+			b[i] = memCode(r)
+			if b[i] == 'U' {
+				b[i] = 'N'
+			}
+		}
+		return string(b)
+	})
+	calls = last.calls()
+	grpcC = run(func(ctx context.Context) string {
+		req := &rts.BatchCheckRequest{MaxDepth: int32(depth)}
+		for _, q := range qs {
+			req.Tuples = append(req.Tuples, q.ToProto())
+		}
+		resp, err := h.BatchCheck(ctx, req)
+		if err != nil {
+			return "!"
+		}
+		b := make([]byte, len(resp.Results))
+		for i, r := range resp.Results {
+			b[i] = code(r.Allowed, r.Error)
+		}
+		return string(b)
+	})
+	rest = run(func(ctx context.Context) string {
+		router := &x.ReadRouter{Router: httprouter.New()}
+		h.RegisterReadRoutes(router)
+		body, _ := json.Marshal(map[string]any{"tuples": qs})
+		req := httptest.NewRequest("POST", fmt.Sprintf("%s?max-depth=%d", check.BatchRoute, depth), bytes.NewReader(body)).WithContext(ctx)
+		rec := httptest.NewRecorder()
+		router.ServeHTTP(rec, req)
+		if rec.Code != 200 {
+			return "!"
+		}
+		var resp struct {
+			Results []struct {
+				Allowed bool   `json:"allowed"`
+				Error   string `json:"error"`
+			} `json:"results"`
+		}
+		if err := json.Unmarshal(rec.Body.Bytes(), &resp); err != nil {
+			return "?"
+		}
+		b := make([]byte, len(resp.Results))
+		for i, r := range resp.Results {
+			b[i] = code(r.Allowed, r.Error)
+		}
+		return string(b)
+	})
+	return
+}
+
 // runCheck runs one check with its own context; returns the result code, or
 // 'H' if it did not return within the grace period.
-func (e *checkEnv) runCheck(t testing.TB, q *ketoapi.RelationTuple, depth int, pre func(ctx context.Context, cancel context.CancelFunc)) (byte, int, time.Duration) {
+func (e *checkEnv) runCheck(t testing.TB, q *ketoapi.RelationTuple, depth int, pre func(rs *runState, cancel context.CancelFunc)) (byte, int, time.Duration) {
 	it := internalTuple(t, e.reg, q)
-	ctx, cancel := context.WithCancel(context.Background())
+	rs := &runState{}
+	ctx, cancel := context.WithCancel(withRunState(context.Background(), rs))
 	defer cancel()
-	e.w.reset()
 	if pre != nil {
-		pre(ctx, cancel)
+		pre(rs, cancel)
 	}
 	t0 := time.Now()
 	done := make(chan checkgroup.Result, 1)
 	go func() { done <- e.eng.CheckRelationTuple(ctx, it, depth) }()
 	select {
 	case r := <-done:
-		return memCode(r), e.w.calls(), time.Since(t0)
-	case <-time.After(10 * time.Second):
-		return 'H', e.w.calls(), time.Since(t0)
+		return memCode(r), rs.calls(), time.Since(t0)
+	case <-time.After(hangGrace):
+		hangs++
+		return 'H', rs.calls(), time.Since(t0)
 	}
 }
+
+// A check that has not returned after hangGrace is recorded as 'H'. After
+// maxHangs of them the shard stops (each costs the full grace period) and says so.
+const hangGrace = 10 * time.Second
+const maxHangs = 3
+
+var hangs int
+var leaksSeen int
 
 func waitNoKetoGoroutines(max time.Duration) (int, string) {
 	deadline := time.Now().Add(max)
@@ -129,6 +249,25 @@ func famCheck(t *testing.T) {
 	out := newNDWriter(*fOut)
 	defer out.close()
 	si, sn := shard()
+	if in.Mode == "trace" {
+		rec.start()
+		defer func() {
+			// let stragglers finish so that their groups are complete
+			waitNoKetoGoroutines(3 * time.Second)
+			rec.stop()
+			logs, open := rec.completeLogs()
+			tw := newNDWriter(*fTrace + fmt.Sprintf(".%d", si))
+			nev := 0
+			for _, l := range logs {
+				for _, ev := range l {
+					tw.write(ev)
+					nev++
+				}
+			}
+			tw.close()
+			out.write(map[string]any{"traces": len(logs), "events": nev, "open": open})
+		}()
+	}
 
 	type envKey struct {
 		f  string
@@ -188,6 +327,10 @@ func famCheck(t *testing.T) {
 				if gi%sn != si || g.F != key.f || g.St != key.st {
 					continue
 				}
+				if hangs >= maxHangs {
+					out.write(map[string]any{"abort": "hangs", "g": gi})
+					return
+				}
 				if e == nil {
 					e = mkEnv(t, key)
 				}
@@ -233,7 +376,7 @@ func runGroup(t *testing.T, in *checkIn, out *ndWriter, e *checkEnv, gi, wi int,
 					if run > 0 {
 						seed = uint64(*fSeed)*1000003 + uint64(run)*7919 + uint64(gi)*31 + uint64(qi)
 					}
-					c, n, _ := e.runCheck(t, q, d, func(context.Context, context.CancelFunc) { e.w.delaySeed = seed })
+					c, n, _ := e.runCheck(t, q, d, func(rs *runState, _ context.CancelFunc) { rs.delaySeed = seed })
 					codes[di], calls[di] = c, n
 				}
 				o.Res = append(o.Res, string(codes))
@@ -249,19 +392,33 @@ func runGroup(t *testing.T, in *checkIn, out *ndWriter, e *checkEnv, gi, wi int,
 				o := checkOut{G: gi, W: wi, Q: qi, D: d, Base: string(base), N: n}
 				var ft, fp, fc []byte
 				for k := 1; k <= n+1; k++ {
-					c, fn, _ := e.runCheck(t, q, d, func(context.Context, context.CancelFunc) { e.w.failAt = k })
+					c, fn, _ := e.runCheck(t, q, d, func(rs *runState, _ context.CancelFunc) { rs.failAt = k })
 					ft = append(ft, c)
 					o.FN = append(o.FN, fn)
-					c, _, _ = e.runCheck(t, q, d, func(context.Context, context.CancelFunc) { e.w.failAt, e.w.failAll = k, true })
+					c, _, _ = e.runCheck(t, q, d, func(rs *runState, _ context.CancelFunc) { rs.failAt, rs.failAll = k, true })
 					fp = append(fp, c)
-					c, _, _ = e.runCheck(t, q, d, func(context.Context, context.CancelFunc) {
-						e.w.failAt, e.w.failErr = k, fmt.Errorf("query: %w", context.Canceled)
+					c, _, _ = e.runCheck(t, q, d, func(rs *runState, _ context.CancelFunc) {
+						rs.failAt, rs.failErr = k, fmt.Errorf("query: %w", context.Canceled)
 					})
 					fc = append(fc, c)
 				}
 				o.FT, o.FP, o.FC = string(ft), string(fp), string(fc)
 				out.write(o)
 			}
+		}
+		{
+			var qs []*ketoapi.RelationTuple
+			for _, qi := range qsel {
+				qs = append(qs, def.Q[qi].api())
+			}
+			d := in.RDepths[len(in.RDepths)-1]
+			bb, _, _, n := e.batch(t, qs, d, nil)
+			o := checkOut{G: gi, W: wi, Q: -1, D: d, BBase: bb, BN: n}
+			for k := 1; k <= n+1; k++ {
+				be, bg, br, _ := e.batch(t, qs, d, func(rs *runState) { rs.failAt = k })
+				o.BE, o.BG, o.BR = append(o.BE, be), append(o.BG, bg), append(o.BR, br)
+			}
+			out.write(o)
 		}
 	case "cancel":
 		for _, qi := range qsel {
@@ -271,11 +428,11 @@ func runGroup(t *testing.T, in *checkIn, out *ndWriter, e *checkEnv, gi, wi int,
 				o := checkOut{G: gi, W: wi, Q: qi, D: d, Base: string(base), N: n}
 				var ca []byte
 				for k := 0; k <= n+1; k++ {
-					c, cn, el := e.runCheck(t, q, d, func(ctx context.Context, cancel context.CancelFunc) {
+					c, cn, el := e.runCheck(t, q, d, func(rs *runState, cancel context.CancelFunc) {
 						if k == 0 {
 							cancel()
 						} else {
-							e.w.cancelAt, e.w.cancelFn = k, cancel
+							rs.cancelAt, rs.cancelFn = k, cancel
 						}
 					})
 					if c == 'H' {
@@ -284,7 +441,14 @@ func runGroup(t *testing.T, in *checkIn, out *ndWriter, e *checkEnv, gi, wi int,
 					ca = append(ca, c)
 					o.CMs = append(o.CMs, int(el.Milliseconds()))
 					o.CN = append(o.CN, cn)
-					l, ls := waitNoKetoGoroutines(5 * time.Second)
+					lw := 5 * time.Second
+					if leaksSeen >= 3 {
+						lw = 300 * time.Millisecond // leaks are established; do not pay the full grace period again
+					}
+					l, ls := waitNoKetoGoroutines(lw)
+					if l > 0 {
+						leaksSeen++
+					}
 					o.CL = append(o.CL, l)
 					if l > 0 && o.LeakS == "" {
 						o.LeakS = ls
@@ -292,6 +456,27 @@ func runGroup(t *testing.T, in *checkIn, out *ndWriter, e *checkEnv, gi, wi int,
 				}
 				o.CA = string(ca)
 				out.write(o)
+			}
+		}
+	case "trace":
+		// a mix of undisturbed, cancelled and faulted runs, recorded through hook H2
+		for _, qi := range qsel {
+			q := def.Q[qi].api()
+			for _, d := range in.RDepths {
+				_, n, _ := e.runCheck(t, q, d, nil)
+				for k := 0; k <= n; k++ {
+					if (k+gi+qi)%3 == 0 {
+						e.runCheck(t, q, d, func(rs *runState, cancel context.CancelFunc) {
+							if k == 0 {
+								cancel()
+							} else {
+								rs.cancelAt, rs.cancelFn = k, cancel
+							}
+						})
+					} else if k > 0 {
+						e.runCheck(t, q, d, func(rs *runState, _ context.CancelFunc) { rs.failAt = k })
+					}
+				}
 			}
 		}
 	default:
